@@ -49,6 +49,7 @@ def passwords(rng, k, name, tier):
         out.append((H.pw_bytes(rng, ln, kind), kind))
     # text passwords with multi-byte characters (given as str)
     out.append((H.pw_text(rng, rng.choice([1, 3, 8, 20])), "text"))
+    out.append((H.pw_latin1_text(rng, rng.choice([2, 5, 9])), "text-latin1"))
     if k % 7 == 0:
         out.append((H.pw_bytes(rng, rng.choice([1000, 4093, 4094]), "ascii"), "ascii"))
     return out
@@ -112,6 +113,10 @@ def work(run, names, backend):
             for pw, kind in pws:
                 secret = pw.encode("utf-8") if isinstance(pw, str) else pw
                 ctx = H.ctx_for(h, rng)
+                if kind == "text-latin1" and bname == "htdigest":
+                    ctx["encoding"] = "latin-1"
+                    ctx["user"], ctx["realm"] = rng.choice(["u", "üser"]), rng.choice(["r", "réalm"])
+                    secret = pw.encode("latin-1")      # the algorithm is defined on the bytes of the configured encoding
                 if bname in ("cisco_pix", "cisco_asa") and len(secret) > h.truncate_size:
                     secret = secret[: rng.choice([h.truncate_size, 13, 15, 16, 27, 28, 12])]
                     pw = secret
@@ -209,6 +214,36 @@ def repro(name, st, pw, ctx, backend, want):
             + (f"h.set_backend('builtin')\n" if backend == "builtin" else "")
             + f"got = h.using(**{st!r}).hash({pw!r}, **{ctx!r})\nprint('passlib  :', got)\nprint('reference:', {want!r})\n"
             + "raise SystemExit(0 if got == " + repr(want) + " else 1)\n")
+
+
+def sun_md5_bare(run):
+    """sun_md5_crypt strings in the bare-salt spelling exist only as strings (using() cannot make them): OS crypt() makes them,
+    passlib must verify them and reproduce them with genhash()"""
+    import passlib.hash as PH
+    rng = run.rng("sunbare")
+    h = PH.sun_md5_crypt
+    for i in range(12 if run.tier == "quick" else 120):
+        salt = "".join(rng.choice(F.H64) for _ in range(rng.choice([1, 4, 8, 16])))
+        rounds = rng.choice([0, 0, 1, 7, 100, 4095])
+        cfg = ("$md5,rounds=%d$%s" % (rounds, salt)) if rounds else "$md5$" + salt
+        pw = H.pw_bytes(rng, rng.choice([1, 8, 30]), "ascii").decode()
+        for variant, config in (("bare", cfg), ("terminated", cfg + "$")):
+            try:
+                want = F.os_crypt(pw.encode(), config)
+            except F.NotCovered:
+                continue
+            try:
+                ok, bad, again = h.verify(pw, want), h.verify(pw + "x", want), h.genhash(pw, want)
+            except Exception as e:
+                run.violation(f"C02|sun_md5_crypt|oscrypt-{variant}|raises|{type(e).__name__}", f"sun_md5_crypt: OS-crypt-made {variant}-salt hash raises {type(e).__name__}: {e}", dict(hash=want, password=pw))
+                continue
+            run.case(("sun_md5_crypt", "oscrypt-" + variant, rounds > 0, len(salt)), dict(format="sun_md5_crypt", spelling=variant, os_crypt_hash=want, password=pw))
+            run.count("cmp:sun_md5_crypt:oscrypt-" + variant)
+            if ok is not True or bad or again != want:
+                run.violation(f"C02|sun_md5_crypt|oscrypt-{variant}|{'rounds' if rounds else 'no-rounds'}|rejected",
+                              f"sun_md5_crypt: a {variant}-salt hash made by OS crypt() (rounds={rounds}): verify={ok} wrong-password={bad} genhash-equal={again == want}",
+                              dict(hash=want, password=pw, genhash=again),
+                              repro=f"import passlib.hash as H\nprint(H.sun_md5_crypt.verify({pw!r}, {want!r}))")
 
 
 def django_cross(run):
@@ -322,6 +357,7 @@ def body(run):
                  env={"PASSLIB_BUILTIN_BCRYPT": "1"})
     django_cross(run)
     libpass_diff(run)
+    sun_md5_bare(run)
     for n in names:
         if H.usable(n) and n not in H.DISABLED:
             run.require(f"cmp:{n}:default", 3)
